@@ -806,9 +806,14 @@ func (x *exec) taskOp(t *task, i int, st scn.Step) {
 		t.env = e
 		s.onEvent(evOpBegin, scn.HashString(st.K)&0x7fffffffffffffff, nil)
 		var r string
-		if st.Op == "get" {
+		switch st.Op {
+		case "get":
 			r = x.cache.opGet(i, e, st.K, st.Fail, st.Panic)
-		} else {
+		case "noise":
+			r = x.cache.opNoise(st)
+		case "numpat":
+			r = x.cache.opNumPat(st)
+		default:
 			r = x.cache.opRegex(i, st, t.id)
 		}
 		t.hash = mix(t.hash, e.hash, scn.HashString(r))
